@@ -243,7 +243,15 @@ impl SDJWTVerifier {
 
         self.duplicate_hash_check = Vec::new();
         let claims: Value = self.sd_jwt_payload.clone().into_iter().collect();
-        self.unpack_disclosed_claims(&claims)
+        // `_sd_alg` is a top-level marker only: it takes part in the name-collision check like any
+        // other member of the signed payload and is removed from the result afterwards
+        match self.unpack_disclosed_claims(&claims)? {
+            Value::Object(mut verified) => {
+                verified.shift_remove(DIGEST_ALG_KEY);
+                Ok(Value::Object(verified))
+            }
+            other => Ok(other),
+        }
     }
 
     fn unpack_disclosed_claims(&mut self, sd_jwt_claims: &Value) -> Result<Value> {
@@ -292,7 +300,7 @@ impl SDJWTVerifier {
         let mut disclosed_claims: Map<String, Value> = serde_json::Map::new();
 
         for (key, value) in nested_sd_jwt_claims {
-            if key != SD_DIGESTS_KEY && key != DIGEST_ALG_KEY {
+            if key != SD_DIGESTS_KEY {
                 disclosed_claims.insert(key.to_owned(), self.unpack_disclosed_claims(value)?);
             }
         }
